@@ -642,6 +642,8 @@ def run(shard, rec, rng):
         content_ranges(cx, http, DS, cfg["crlen"])
     if shard["index"] % 4 == 1:
         concurrent_roundtrips(rec, rng, http, DS)
+    if shard["index"] % 4 == 2:
+        first_calls_in_fresh_processes(rec, rng, http, 4 if shard["_tier"] == "quick" else 12)
     for i in range(cfg["rand"]):
         check_string(cx, http, DS, rand_str(rng))
         check_structured(cx, http, DS, rng, cfg)
@@ -649,6 +651,78 @@ def run(shard, rec, rng):
     rec.sample({"string": '"\\', "pairs": PAIRS[:8]})
     rec.sample({"hostile_text": hostile.value(rng, 2, 6)})
     reach.finish()
+
+
+FIRST_CALLS_SCRIPT = r"""
+import json, random, sys, threading, time
+sys.path.insert(0, sys.argv[1])
+import werkzeug.http as H
+rnd = random.Random(int(sys.argv[2]))
+mon = sys.monitoring
+TOOL = 5
+mon.use_tool_id(TOOL, "verif-first-calls")
+def on_line(code, line):
+    if rnd.random() < 0.35:
+        time.sleep(0.0003)
+mon.register_callback(TOOL, mon.events.LINE, on_line)
+for fn in list(vars(H).values()):
+    code = getattr(fn, "__code__", None)
+    if code is not None and code.co_filename == H.__file__:
+        mon.set_local_events(TOOL, code, mon.events.LINE)
+vals = ['say "hi"', 'a"b', 'back\\slash "q"', 'tail\\', 'x y', 'q"', '"']
+errs = []
+go = threading.Barrier(4)
+def work(i):
+    v = vals[(i + int(sys.argv[2])) % len(vals)]
+    go.wait()
+    time.sleep(0.0004 * i)
+    for _ in range(2):
+        h = H.dump_header([v, "z"])
+        if H.parse_list_header(h) != [v, "z"]:
+            errs.append(["list", v, h, H.parse_list_header(h)])
+        o = H.dump_options_header("t/x", {"p": v})
+        if H.parse_options_header(o)[1].get("p") != v:
+            errs.append(["options", v, o, H.parse_options_header(o)[1].get("p")])
+        d = H.dump_header({"k": v})
+        if H.parse_dict_header(d) != {"k": v}:
+            errs.append(["dict", v, d, H.parse_dict_header(d)])
+ths = [threading.Thread(target=work, args=(i,)) for i in range(4)]
+[t.start() for t in ths]
+[t.join() for t in ths]
+print(json.dumps(errs))
+"""
+
+
+def first_calls_in_fresh_processes(rec, rng, http, trials):
+    """Schedule + history: the very first serialisations of a process happen on four threads at once (a server that has
+    just started answers its first requests), with yields injected at the lines of werkzeug.http; each trial is a fresh
+    interpreter.  Every thread's values come back from the parser as they went in."""
+    import json
+    import os
+    import subprocess
+    import sys
+
+    src = os.path.dirname(os.path.dirname(os.path.abspath(http.__file__)))
+    for t in range(trials):
+        seed = rng.randrange(10**6)
+        rec.case()
+        rec.nontrivial(("first-calls", seed))
+        try:
+            out = subprocess.run([sys.executable, "-c", FIRST_CALLS_SCRIPT, src, str(seed)], capture_output=True, text=True, timeout=60, env=dict(os.environ, PYTHONHASHSEED="0"))
+        except subprocess.TimeoutExpired:
+            rec.observe("first_call_trials_timed_out")
+            continue
+        if out.returncode != 0:
+            rec.observe("first_call_trials_failed_to_run")
+            rec.note(f"first-calls trial did not run: {out.stderr[-300:]}")
+            continue
+        rec.observe("first_call_trials_in_fresh_processes")
+        errs = json.loads(out.stdout.strip().splitlines()[-1])
+        if errs:
+            kind, v, h, back = errs[0]
+            rec.violation("C06/first-calls-on-several-threads", f"fresh process, four threads serialising at once (seed {seed}): {kind} header for {v!r} was written {h!r} and parsed back {back!r} ({len(errs)} such round trips)",
+                          {"pair": "first-calls", "seed": seed}, monitor="roundtrip")
+            return
 
 
 def replay(case, rec):
